@@ -32,5 +32,10 @@ func (c *notCond) string() string {
 		return fmt.Sprintf("not %s", c.notC.string())
 	}
 	splitted := strings.Split(next, " ")
+	if splitted[0] == "not" || (len(splitted) > 1 && splitted[1] == "not") {
+		// already negated: "not (...)" or "key not operator value".
+		// A negation can only be negated again as a group.
+		return fmt.Sprintf("not (%s)", next)
+	}
 	return strings.Join(append([]string{splitted[0], "not"}, splitted[1:]...), " ")
 }
